@@ -134,6 +134,7 @@ func checkMain(args []string) {
 	prop := fs.String("prop", "", "property id")
 	tier := fs.String("tier", "quick", "quick|thorough")
 	replayOnly := fs.String("replay", "", "replay file to re-run")
+	outDir := fs.String("out", "", "directory for evidence and replay files (default: the verification directory)")
 	fs.Parse(args)
 	_ = replayOnly
 	if *prop == "" {
@@ -156,11 +157,14 @@ func checkMain(args []string) {
 		// a tree that does not compile or whose contracts do not parse is not a property verdict
 		os.Exit(2)
 	}
-	res := runProperty(P, *prop, *tier, seed, *verif)
+	if *outDir == "" {
+		*outDir = *verif
+	}
+	res := runProperty(P, *prop, *tier, seed, *verif, *outDir)
 	res.ev.WallS = time.Since(t0).Seconds()
-	os.MkdirAll(filepath.Join(*verif, "evidence"), 0o755)
+	os.MkdirAll(filepath.Join(*outDir, "evidence"), 0o755)
 	b, _ := json.MarshalIndent(res.ev, "", " ")
-	os.WriteFile(filepath.Join(*verif, "evidence", *prop+".json"), b, 0o644)
+	os.WriteFile(filepath.Join(*outDir, "evidence", *prop+".json"), b, 0o644)
 	for _, l := range res.lines {
 		fmt.Println(l)
 	}
@@ -185,7 +189,7 @@ type propResult struct {
 	broken     bool
 }
 
-func runProperty(P *Prog, prop, tier string, seed int, verif string) *propResult {
+func runProperty(P *Prog, prop, tier string, seed int, verif, outDir string) *propResult {
 	res := &propResult{}
 	findings := loadFindings(filepath.Join(verif, "known_findings.txt"))
 	var units []*Unit
@@ -336,7 +340,7 @@ func runProperty(P *Prog, prop, tier string, seed int, verif string) *propResult
 	solverS := 0.0
 	var slowest []*Obligation
 	var samples []any
-	replayDir := filepath.Join(verif, "replays", "out", prop)
+	replayDir := filepath.Join(outDir, "replays", "out", prop)
 	os.RemoveAll(replayDir)
 	var knownMatched []string
 	for _, o := range obls {
@@ -386,6 +390,23 @@ func runProperty(P *Prog, prop, tier string, seed int, verif string) *propResult
 	}
 	// contract errors and unsupported constructs in units that carry this property are violations of the
 	// check's own preconditions: the code can no longer be brought under its contract
+	// one report per function whose contract no longer binds
+	{
+		seenFn := map[string]bool{}
+		var ded []string
+		for _, e := range specErrs {
+			fn := e
+			if i := strings.Index(e, ": "); i > 0 {
+				fn = e[:i]
+			}
+			if seenFn[fn] {
+				continue
+			}
+			seenFn[fn] = true
+			ded = append(ded, e)
+		}
+		specErrs = ded
+	}
 	for _, e := range specErrs {
 		res.violations++
 		os.MkdirAll(replayDir, 0o755)
